@@ -232,6 +232,10 @@ func builtinJSONStringifyWalk(ctx builtinJSONStringifyContext, key string, holde
 		integer := value.number()
 		switch integer.kind {
 		case numberInteger:
+			if f, ok := value.value.(float64); ok && (f >= 1<<53 || f <= -(1<<53)) {
+				// Beyond 2**53 the int64 image has more digits than ToString of the double.
+				return f, true
+			}
 			return integer.int64, true
 		case numberFloat:
 			return integer.float64, true
